@@ -27,6 +27,31 @@ func c05Case(c *corrCtx, class, format string, data []byte, w, h, depth uint32, 
 				map[string]interface{}{"loader": ld, "want": prefix, "got": out, "file_hex": hexs(trunc(data, 256))})
 		}
 	}
+	// the same image stored behind other bytes in a seekable source (a container file, the second image
+	// of a file) with the reader positioned at the image: every fifth case
+	c05Turn++
+	if c05Turn%5 == 0 {
+		for _, k := range []int{1, 16, 4096} {
+			var pre []byte
+			if k == 4096 {
+				pre = append(append(pre, data...), make([]byte, 4096)...)[:4096] // another image first
+			} else {
+				pre = c.rng.bytes(k)
+			}
+			all := append(append([]byte{}, pre...), data...)
+			for _, ld := range []string{format, "auto"} {
+				src := bytes.NewReader(all)
+				src.Seek(int64(len(pre)), 0)
+				md, _, err, p := safeLoad(loaders[ld], src)
+				got := metaOut(md, err, p)
+				prefix := fmt.Sprintf("ok %s %d %d %d ", wantFmt, w, h, depth)
+				if len(got) < len(prefix) || got[:len(prefix)] != prefix {
+					c.direct(fmt.Sprintf("C05/%s/%s/seekable-offset%d", class, ld, len(pre)), "loader does not report the header values of the image a seekable source is positioned at",
+						map[string]interface{}{"loader": ld, "start_offset": len(pre), "want": prefix, "got": got, "file_hex": hexs(trunc(data, 128))})
+				}
+			}
+		}
+	}
 	if useDecodeConfig {
 		cfg, name, err := image.DecodeConfig(bytes.NewReader(data))
 		c.stats["decodeconfig/"+format]++
@@ -42,6 +67,8 @@ func c05Case(c *corrCtx, class, format string, data []byte, w, h, depth uint32, 
 		}
 	}
 }
+
+var c05Turn int
 
 func trunc(b []byte, n int) []byte {
 	if len(b) > n {
